@@ -128,3 +128,86 @@ func zzFindCause(b []byte, h zzHdr) uint8 {
 	}
 	return p[0]
 }
+
+// ---- reference decoder for Usage Report IEs (TS 29.244 7.5.5.2 / 7.5.7.2 / 7.5.8.3) ----
+
+type zzUR struct {
+	urr     uint32
+	seqn    uint32
+	trig    [3]byte
+	hasURR  bool
+	hasSeqn bool
+	hasTrig bool
+	hasVol  bool
+	hasDur  bool
+	hasST   bool
+	hasET   bool
+	vol     []byte
+}
+
+func (u zzUR) termr() bool { return u.trig[1]&0x08 != 0 }
+func (u zzUR) immer() bool { return u.trig[0]&0x80 != 0 }
+func (u zzUR) perio() bool { return u.trig[0]&0x01 != 0 }
+
+func zzBE32(b []byte) uint32 {
+	return uint32(b[0])<<24 | uint32(b[1])<<16 | uint32(b[2])<<8 | uint32(b[3])
+}
+
+// zzUsageReports decodes all top-level grouped IEs of type t (78 mod rsp, 79 del rsp, 80 report req).
+func zzUsageReports(b []byte, h zzHdr, t uint16) []zzUR {
+	var out []zzUR
+	p := h.off
+	for p+4 <= len(b) {
+		typ := uint16(b[p])<<8 | uint16(b[p+1])
+		l := int(b[p+2])<<8 | int(b[p+3])
+		if p+4+l > len(b) {
+			return out
+		}
+		if typ == t {
+			out = append(out, zzDecodeUR(b[p+4:p+4+l]))
+		}
+		p += 4 + l
+	}
+	return out
+}
+
+func zzDecodeUR(g []byte) zzUR {
+	var u zzUR
+	p := 0
+	for p+4 <= len(g) {
+		typ := uint16(g[p])<<8 | uint16(g[p+1])
+		l := int(g[p+2])<<8 | int(g[p+3])
+		if p+4+l > len(g) {
+			return u
+		}
+		v := g[p+4 : p+4+l]
+		switch typ {
+		case 81: // URR ID
+			if l == 4 {
+				u.urr, u.hasURR = zzBE32(v), true
+			}
+		case 104: // UR-SEQN
+			if l == 4 {
+				u.seqn, u.hasSeqn = zzBE32(v), true
+			}
+		case 63: // Usage Report Trigger
+			if l >= 2 {
+				u.trig[0], u.trig[1] = v[0], v[1]
+				if l >= 3 {
+					u.trig[2] = v[2]
+				}
+				u.hasTrig = true
+			}
+		case 66:
+			u.hasVol, u.vol = true, v
+		case 67:
+			u.hasDur = true
+		case 75:
+			u.hasST = true
+		case 76:
+			u.hasET = true
+		}
+		p += 4 + l
+	}
+	return u
+}
